@@ -241,6 +241,20 @@ class NotConst(Exception):
     pass
 
 
+class FoldObject(object):
+    """base class of objects a rule puts into the environment of a fold: their methods are called as written in the source"""
+
+
+def _args(nodes, env):
+    out = []
+    for a in nodes:
+        if isinstance(a, ast.Starred):
+            out.extend(const(a.value, env))
+        else:
+            out.append(const(a, env))
+    return out
+
+
 class FoldStructError(NotConst):
     """the folded expression raises struct.error"""
 
@@ -333,14 +347,21 @@ def const(node, env=None):
         return _BIN[type(node.op)](const(node.left, env), const(node.right, env))
     if isinstance(node, ast.Call) and isinstance(node.func, ast.Name) and not node.keywords and env and \
             node.func.id in env.get('__funcs__', ()):
-        return env['__funcs__'][node.func.id](*[const(a, env) for a in node.args])     # pure helper folded by fold_func
+        return env['__funcs__'][node.func.id](*_args(node.args, env))     # pure helper folded by fold_func
     if isinstance(node, ast.Call) and isinstance(node.func, ast.Attribute) and not node.keywords and env and \
             norm(node.func) in env.get('__calls__', ()):
         return env['__calls__'][norm(node.func)](*[const(a, env) for a in node.args])  # a method the caller of the fold models
+    if isinstance(node, ast.Call) and isinstance(node.func, ast.Attribute) and not node.keywords:
+        try:
+            recv = const(node.func.value, env)
+        except NotConst:
+            recv = None
+        if isinstance(recv, FoldObject):
+            return getattr(recv, node.func.attr)(*_args(node.args, env))       # an object the caller of the fold models
     if isinstance(node, ast.Call) and isinstance(node.func, ast.Name) and not node.keywords:
         fn = node.func.id
-        args = [const(a, env) for a in node.args]
-        table = {'range': range, 'bytearray': bytearray, 'bytes': bytes, 'len': len, 'int': int, 'tuple': tuple,
+        args = _args(node.args, env)
+        table = {'zip': zip, 'iter': iter, 'reversed': reversed, 'isinstance': isinstance,'range': range, 'bytearray': bytearray, 'bytes': bytes, 'len': len, 'int': int, 'tuple': tuple,
                  'list': list, 'min': min, 'max': max, 'sum': sum, 'frozenset': frozenset, 'set': set, 'sorted': sorted, 'slice': slice, 'divmod': divmod,
                  'bool': bool, 'pow': pow, 'abs': abs, 'type': type, 'str': str, 'repr': repr}
         if fn in table:
@@ -355,7 +376,7 @@ def const(node, env=None):
     if isinstance(node, ast.Call) and norm(node.func) in ('struct.unpack', 'struct.pack', 'unpack', 'pack') and not node.keywords and node.args \
             and norm(node.func) not in (env or {}).get('__funcs__', ()):
         import struct as _struct
-        args = [const(a, env) for a in node.args]
+        args = _args(node.args, env)
         try:
             if norm(node.func).endswith('pack') and not norm(node.func).endswith('unpack'):
                 return _struct.pack(*args)
@@ -379,7 +400,7 @@ def const(node, env=None):
         return getattr(v, node.func.attr)(*[a.value for a in node.args])     # str.encode / bytes.decode only
     if isinstance(node, ast.Call) and isinstance(node.func, ast.Attribute) and not node.keywords and node.func.attr in (
             'intersection', 'difference', 'union', 'symmetric_difference', 'isdisjoint', 'issubset', 'issuperset', 'count',
-            'bit_length', 'startswith', 'endswith', 'index', 'find', 'capitalize', 'upper', 'lower', 'get', 'keys', 'values', 'items'):
+            'bit_length', 'startswith', 'endswith', 'index', 'find', 'capitalize', 'upper', 'lower', 'get', 'keys', 'values', 'items', 'join'):
         v = const(node.func.value, env)
         if isinstance(v, (set, frozenset, bytes, bytearray, tuple, list, str, int, range, dict)):
             return getattr(v, node.func.attr)(*[const(a, env) for a in node.args])     # pure methods of builtin values only
@@ -434,6 +455,22 @@ def fold_block(stmts, env):
                     r = fold_block(hs[0].body, env)
             if r[0] != 'fall':
                 return r
+            continue
+        if isinstance(st, ast.Assert):
+            if not const(st.test, env):
+                env['__raise__'] = st
+                return ('raise', 'AssertionError(%s)' % norm(st.test))
+            continue
+        if isinstance(st, ast.FunctionDef) and not st.decorator_list and not st.args.vararg and not st.args.kwarg and not st.args.kwonlyargs:
+            # a local function: folded at its calls with the values of the enclosing names at that time
+            def _local(*a, _st=st):
+                e2 = dict(env)
+                e2.update(zip([x.arg for x in _st.args.args], a))
+                r_ = fold_block(_st.body, e2)
+                if r_[0] == 'raise':
+                    raise NotConst('local function raises ' + r_[1])
+                return r_[1]
+            env['__funcs__'] = dict(env.get('__funcs__', {}), **{st.name: _local})
             continue
         if isinstance(st, ast.Delete) and all(isinstance(t, ast.Subscript) and isinstance(t.value, ast.Name) and t.value.id in env
                                               and isinstance(env[t.value.id], (bytearray, list)) for t in st.targets):
